@@ -35,6 +35,11 @@ def check(ctx):
     for bb in [x for x in c11.builders_of(ctx.facts, c11.TBA) if ctx.facts.body_unit[x["id"]][0] == "mina_core"]:
         c11.check_builder(ctx, ctx.facts, bb, "G11")
     c11.rule_append_only(ctx, ctx.facts, "G11")
+    # ... and the evaluation the generated update delegates to: splitter, lookup, master search (C01/R1-R4)
+    from rules import c01
+    c01.rule_split(ctx, ctx.facts, "G12")
+    c01.rule_lookup(ctx, ctx.facts, "G12", "G12")
+    c01.rule_search(ctx, ctx.facts, "G12")
     ctx.extra["programs"] = n
     ctx.extra["disagreements_checked"] = n
     ctx.extra["tv_samples"] = [{"shape": s.label, "animated": s.animated, "target": s.target} for s in shapes[:8]]
